@@ -68,6 +68,11 @@ def scenarios():
     add("raw-error-words-2", ("raw", b"x", b"\n\r\nEND\r\n"), b"ERROR\r\nSERVER_ERROR x\r\nok\n\r\nEND\r\n")
     add("get-error-words-value", ("get", "k"), v(b"k", b"x\r\nSERVER_ERROR y\r\nERROR\r\nCLIENT_ERROR z\r\n") + b"END\r\n")
     add("raw-aws-decoy", ("raw", b"config get cluster", AWS_TOKEN), b"CONFIG\n\r\nEN\n\r\nEND\r\n")
+    # a reply that does NOT contain the caller's end token (the server answered with an error line): whatever the call does with it - the
+    # unchanged reader keeps waiting - it does the same for every segmentation
+    for ename, eline in (("error", b"ERROR\r\n"), ("client-error", b"CLIENT_ERROR bad command line format\r\n"), ("server-error", b"SERVER_ERROR out of memory\r\n")):
+        add(f"raw-endtoken-{ename}", ("raw", b"lru_crawler metadump all", b"END\r\n"), eline)
+        add(f"raw-aws-{ename}", ("raw", b"config get cluster", AWS_TOKEN), eline)
     for total in (4096, 8192, 12288, 8192 + 100):
         for tok in (b"\r\n", AWS_TOKEN):
             body = bytes(65 + (i * 11) % 26 for i in range(total - len(tok)))
